@@ -153,6 +153,13 @@ def prop(case, r):
     except (FloatingPointError, OverflowError, np.linalg.LinAlgError) as e:
         r.discard(f'iteration diverged: {type(e).__name__}')
         return
+    except ZeroDivisionError:
+        if case['residual_type'].endswith('rel'):
+            # relative residuals divide by |u[0]| of the step; an intermediate start value can be exactly zero by coincidence
+            # (u' = -0.1 u, dt = 10, spread guess with collocation update: u0 + dt*lambda*u0 = 0): undefined norm, not a verdict about C01
+            r.discard('relative residual undefined: a step start value is exactly zero')
+            return
+        raise
     blocks = list(R.Observer.blocks)
     steps = [s for blk in blocks for s in blk]
     if not steps:
